@@ -60,6 +60,8 @@ pub struct Config {
     /// Indices into the key pool's classes.
     pub key_classes: Vec<usize>,
     pub reporting: bool,
+    /// The conversation has no stalled readers or lanes and no failing lanes: the inactivity rules (C17) apply.
+    pub nothing_stalls: bool,
 }
 
 #[derive(Clone, Copy, Debug, PartialEq, Eq)]
@@ -279,6 +281,7 @@ impl<'a> Gen<'a> {
             },
             key_classes,
             reporting: focus == Focus::Links || self.rng.chance(1, 4),
+            nothing_stalls: focus == Focus::Inactivity,
         }
     }
 
